@@ -134,10 +134,13 @@ impl super::GetFrameType for ConnectionCloseFrame {
 
 impl super::EncodeSize for ConnectionCloseFrame {
     fn max_encoding_size(&self) -> usize {
-        // reason's length could not exceed 16KB, so it can be encoded in 2 bytes.
+        // a reason shorter than 16KB is encoded with a length of at most 2 bytes
+        let reason_len = |reason: &str| {
+            2.max(VarInt::try_from(reason.len()).unwrap().encoding_size()) + reason.len()
+        };
         match self {
-            ConnectionCloseFrame::App(frame) => 1 + 8 + 2 + frame.reason.len(),
-            ConnectionCloseFrame::Quic(frame) => 1 + 8 + 8 + 2 + frame.reason.len(),
+            ConnectionCloseFrame::App(frame) => 1 + 8 + reason_len(&frame.reason),
+            ConnectionCloseFrame::Quic(frame) => 1 + 8 + 8 + reason_len(&frame.reason),
         }
     }
 
